@@ -282,7 +282,7 @@ class Sky130Walker(h.HierarchyWalker):
         m = 1
 
         if params.mult is not None:
-            m = int(params.mult)
+            m = _whole_number(params.mult, "multiplier")
 
         if mod.paramtype == Sky130MimParams:
             w, l = self.use_defaults(params, mod.name, default_cap_sizes)
@@ -342,7 +342,7 @@ class Sky130Walker(h.HierarchyWalker):
         mod = self.bjt_module(params)
 
         if params.mult is not None:
-            mult = int(params.mult)
+            mult = _whole_number(params.mult, "multiplier")
         else:
             mult = 1
 
@@ -382,6 +382,19 @@ class Sky130Walker(h.HierarchyWalker):
         l = self.scale_param(l, 1000 * MILLI)
 
         return w, l
+
+
+def _whole_number(val, what: str) -> int:
+    """Convert `val` to the `int` these devices take, or fail if that would change its value.
+    (`int(2.5)` is 2, `int(0.5)` is 0: a different circuit.)"""
+    try:
+        num = int(val)
+        same = num == val or (isinstance(val, str) and num == float(val))
+    except (TypeError, ValueError):
+        same = False
+    if not same:
+        raise RuntimeError(f"Invalid {what} {val!r}: the Sky130 devices take a whole number")
+    return num
 
 
 def compile(src: h.Elaboratables) -> None:
